@@ -7,7 +7,8 @@ import engine as E
 
 
 def build_cli():
-    tdir = os.path.join(E.BUILD, "target-cli-" + E.sha256(E.REPO)[:8])
+    # one build directory for /repo and one shared by all scratch worktrees (selftests, seed tests): disk stays bounded
+    tdir = os.path.join(E.BUILD, "target-cli" if os.path.realpath(E.REPO) == "/repo" else "target-cli-scratch")
     env = dict(os.environ, CARGO_NET_OFFLINE="true", CARGO_TARGET_DIR=tdir)
     p = subprocess.run(["cargo", "build", "--offline", "-q", "-p", "circomspect"], cwd=E.REPO, env=env, capture_output=True, text=True)
     if p.returncode != 0:
